@@ -54,3 +54,17 @@ Fixpoint find_fragment_loop (l : str) (i len : nat) : range + nat :=
   | c :: l' => if is c HASH then inl (S i, len) else find_fragment_loop l' (S i) len
   end.
 Definition find_fragment (bytes : str) (i : nat) : range + nat := find_fragment_loop (skipn i bytes) i (length bytes).
+
+(* pub fn parts(bytes, i) -> Parts : decomposition of a value known to have a scheme (Uri, Iri) *)
+Definition abs_parts (bytes : str) (i : nat) : ref_ranges :=
+  let sch := scheme_range bytes i in
+  let '(auth, path) :=
+    match authority_or_path bytes (snd sch + 1) with
+    | (AopAuthority, ae) => (Some (snd sch + 3, ae), (ae, path_end bytes ae))
+    | (AopPath, pe) => (None, (snd sch + 1, pe))
+    end in
+  let '(has_q, qe) := query bytes (snd path) in
+  let '(has_f, fe) := fragment bytes qe in
+  {| r_scheme := Some sch; r_authority := auth; r_path := path;
+     r_query := if has_q then Some (snd path + 1, qe) else None;
+     r_fragment := if has_f then Some (qe + 1, fe) else None |}.
